@@ -94,6 +94,8 @@ func newImageIndexForImage(image bufimage.Image, options *imageFilterOptions) (*
 		pkg := addPackageToIndex(imageFile.FileDescriptorProto().GetPackage(), index)
 		pkg.files = append(pkg.files, imageFile)
 		fileName := imageFile.Path()
+		// Also index files that declare no types, so that including them is not an error.
+		index.FileTypes[fileName] = nil
 		fileDescriptorProto := imageFile.FileDescriptorProto()
 		index.ByDescriptor[fileDescriptorProto] = elementInfo{
 			fullName: pkg.fullName,
